@@ -9,7 +9,8 @@ PROP = 'C04'
 LEAN_MODULES = ['BR.Props.C04']
 THEOREMS = ['BR.C04.matmul_is_mul', 'BR.C04.matmul_assoc', 'BR.C04.inv_is_group_inv', 'BR.C04.localToGlobal_eq', 'BR.C04.globalToLocal_eq',
             'BR.C04.l2g_g2l_inverse', 'BR.C04.ctor6_plain', 'BR.C04.ctor_rpy', 'BR.C04.ctor_pair', 'BR.C04.ctor_matrix', 'BR.C04.ctor_quat',
-            'BR.C04.ctor_tm', 'BR.C04.setQuat_getQuat_id', 'BR.C04.quatToRot_smul', 'BR.C04.quatToRot_neg', 'BR.C04.ctor_quat_scale']
+            'BR.C04.ctor_tm', 'BR.C04.setQuat_getQuat_id', 'BR.C04.quatToRot_smul', 'BR.C04.quatToRot_neg', 'BR.C04.ctor_quat_scale', 'BR.C04.transInv_mul_rev',
+            'BR.C04.transInv_transInv', 'BR.C04.inv_matmul']
 TIE = ('K: the Tm model of C03 (lean/BR/Model/Tm.lean); every run renders one pose in each documented constructor form and evaluates pose triples on real tm objects and on the '
        'Float instance of the model, comparing gTM()/gTAA(); the group laws and constructor equivalences are also evaluated directly on the real objects against NumPy references.')
 TRUSTED = ['Lean 4.33 kernel + Mathlib v4.33 (axioms: propext, Classical.choice, Quot.sound)', 'harness/tmh.py, harness/c04.py, harness/gen.py',
@@ -188,6 +189,11 @@ def run(res, tier, seed, driver_ok):
         I = (A.inv() @ A).gTM()
         if G.gt(np.max(np.abs(I - np.eye(4))), tol) or G.gt(np.max(np.abs((A @ A.inv()).gTM() - np.eye(4))), tol):
             bad('inv', 'inv() is not the group inverse', {'a': list(p1) + list(w1)}, G.maxdiff(I, np.eye(4)))
+        iL = (A @ B).inv().gTM(); iR = (B.inv() @ A.inv()).gTM()
+        if G.gt(np.max(np.abs(iL - iR)), tol * scale) or G.gt(np.max(np.abs(iL - np.linalg.inv(TA @ TB))), tol * scale):
+            bad('inv-rev', 'inv(a @ b) differs from inv(b) @ inv(a)', {'a': list(p1) + list(w1), 'b': list(p2) + list(w2)}, G.maxdiff(iL, iR))
+        if G.gt(np.max(np.abs(A.inv().inv().gTM() - TA)), tol):
+            bad('inv-inv', 'inv(inv(a)) is not a', {'a': list(p1) + list(w1)}, G.maxdiff(A.inv().inv().gTM(), TA))
         L = ((A @ B) @ Cc).gTM(); Rr = (A @ (B @ Cc)).gTM()
         if G.gt(np.max(np.abs(L - Rr)), tol * scale):
             bad('assoc', 'composition is not associative', {'a': list(p1) + list(w1), 'b': list(p2) + list(w2), 'c': list(p3) + list(w3)}, G.maxdiff(L, Rr))
